@@ -59,6 +59,7 @@ struct RoundSpec {
   bool detach_after;
   uint32_t nfuncs;     // compiler-virt: number of functions
   bool relocate;       // the finished program is relocated to a base address (as JitRuntime::add would do)
+  bool raw_node;       // Builder: one instruction node is created through new_inst_node() without operands
   bool holder_logger;  // the logger is attached to the holder instead of the emitter
   bool annotate;       // Compiler with a logger: DiagnosticOptions::kRAAnnotate
   int dangling;        // 0 none; 1..7: one-shot state (options / extra register / inline comment) is set after the round and never consumed
@@ -78,6 +79,7 @@ RoundSpec decode(const Op& op) {
   s.relocate = (f >> 19) & 1;
   s.annotate = (f >> 20) & 1;
   s.holder_logger = (f >> 21) & 1;
+  s.raw_node = (f >> 22) & 1;
   if (s.mode == 2 && s.emitter_kind != kAsm) s.mode = 0;
   return s;
 }
@@ -151,6 +153,16 @@ bool generate(const RoundSpec& s, CodeHolder& code, BaseEmitter& e, gen::Recordi
     if (err != Error::kOk && sim::run_faults_fired_total() > 0 && allow_abandon) return false;   // stop at the first error under faults
   }
   if (limit != p.steps.size()) return false;
+  if (s.emitter_kind != kAsm && s.raw_node) {
+    // An instruction node created through the node API with fewer operands than its capacity: operands that were never
+    // set are "none", whatever the memory of the node held before.
+    BaseBuilder& b = static_cast<BaseBuilder&>(e);
+    InstNode* node = nullptr;
+    Error err = b.new_inst_node(Out(node), s.target == gen::Target::kA64 ? InstId(a64::Inst::kIdNop) : InstId(x86::Inst::kIdRet), InstOptions::kNone, 0);
+    errors.push_back(uint32_t(err));
+    if (err == Error::kOk) { b.add_node(node); sim::count("c16.probe.raw_inst_node"); }
+    else if (sim::run_faults_fired_total() > 0 && allow_abandon) return false;
+  }
   if (s.emitter_kind != kAsm) {
     Error err = e.finalize();
     errors.push_back(uint32_t(err));
@@ -464,6 +476,7 @@ Plan generate_rounds_with(uint64_t seed, bool thorough, bool faults) {
     f |= uint64_t(r.below(kRecycleCount)) << 12;    // recycle action
     if (r.chance(1, 4)) f |= uint64_t(1 + r.below(7)) << 16;   // one-shot state left pending when the round ends
     if (r.chance(1, 3)) f |= uint64_t(1) << 19;                // the finished program is relocated
+    if (r.chance(1, 3)) f |= uint64_t(1) << 22;                // Builder: a raw instruction node without operands
     if (r.chance(1, 2)) f |= uint64_t(1) << 21;                // the logger is attached to the holder
     if (r.chance(1, 2)) f |= uint64_t(1) << 20;                // Compiler: the register allocator annotates the code (visible in the log)
     op.a[3] = int64_t(f);
